@@ -73,6 +73,7 @@ struct Pre {
     finished: bool,
     num_waiting: usize,
     now: u64,
+    dist: [Option<Distance>; N],
 }
 impl Pre {
     fn count(&self, s: S) -> usize {
@@ -136,12 +137,13 @@ fn arbitrary_query(n: usize) -> (Q, Pre) {
     kani::assume(peer_timeout < (1 << 30));
     let config = FindNodeQueryConfig { parallelism, num_results, peer_timeout: Duration::new(peer_timeout, 0) };
     let mut q: Q = FindNodeQuery::with_config(config, Id(target).into(), std::iter::empty());
-    let mut pre = Pre { n, ids, st, deadline, target, parallelism, num_results, stalled: stage == 1, finished: stage == 2, num_waiting: 0, now };
+    let mut pre = Pre { n, ids, st, deadline, target, parallelism, num_results, stalled: stage == 1, finished: stage == 2, num_waiting: 0, now, dist: [None; N] };
     let mut i = 0;
     while i < N {
         if i < n {
             let key: Key<Id> = Id(ids[i]).into();
             let d = key.distance(&q.target_key);
+            pre.dist[i] = Some(d);
             let state = match st[i] {
                 S::NotContacted => QueryPeerState::NotContacted,
                 S::Waiting => QueryPeerState::Waiting(instant(deadline[i])),
@@ -163,47 +165,67 @@ fn arbitrary_query(n: usize) -> (Q, Pre) {
     (q, pre)
 }
 
-fn state_of(q: &Q, id: u8) -> Option<S> {
-    let mut r = None;
-    for (_d, p) in q.closest_peers.iter() {
-        if p.key.preimage().0 == id {
-            r = Some(code(&p.state));
+/// One pass over the candidate map: post-state of every pre-state peer (None = not found), number of
+/// candidates, number in flight, and whether the map is in strictly increasing key order.
+struct Post {
+    st: [Option<S>; N],
+    count: usize,
+    waiting: usize,
+    not_contacted: usize,
+    succeeded: usize,
+    ordered: bool,
+    keyed_by_own_distance: bool,
+}
+fn observe(q: &Q, pre: &Pre) -> Post {
+    let mut o = Post { st: [None; N], count: 0, waiting: 0, not_contacted: 0, succeeded: 0, ordered: true, keyed_by_own_distance: true };
+    let mut last: Option<Distance> = None;
+    for (d, p) in q.closest_peers.iter() {
+        o.count += 1;
+        let s = code(&p.state);
+        match s {
+            S::Waiting => o.waiting += 1,
+            S::NotContacted => o.not_contacted += 1,
+            S::Succeeded => o.succeeded += 1,
+            _ => {}
+        }
+        let id = p.key.preimage().0;
+        if let Some(l) = last {
+            if !(l < *d) {
+                o.ordered = false;
+            }
+        }
+        last = Some(*d);
+        let mut i = 0;
+        while i < N {
+            if i < pre.n && pre.ids[i] == id {
+                o.st[i] = Some(s);
+                // still filed under its own distance to the target
+                if Some(*d) != pre.dist[i] {
+                    o.keyed_by_own_distance = false;
+                }
+            }
+            i += 1;
         }
     }
-    r
+    o
 }
 
 /// invariant + monotonicity of per-peer states w.r.t. the pre-state
-fn check_invariant(q: &Q, pre: &Pre) {
-    // num_waiting is exactly the number of peers in Waiting state
-    let mut waiting = 0;
-    let mut last: Option<Distance> = None;
-    let mut count = 0;
-    for (d, p) in q.closest_peers.iter() {
-        count += 1;
-        if let QueryPeerState::Waiting(_) = p.state {
-            waiting += 1;
-        }
-        // ordered by distance to the target, which is the distance of the stored key
-        assert!(*d == p.key.distance(&q.target_key), "candidate filed under a distance that is not its own");
-        if let Some(l) = last {
-            assert!(l < *d, "candidates not in strictly increasing distance");
-        }
-        last = Some(*d);
-    }
-    assert!(q.num_waiting == waiting, "num_waiting out of sync with the peers in flight");
-    // nobody is forgotten and nobody goes back to "not contacted"
-    assert!(count >= pre.n, "a candidate disappeared");
+fn check_invariant(q: &Q, pre: &Pre) -> Post {
+    let o = observe(q, pre);
+    assert!(o.keyed_by_own_distance, "candidate filed under a distance that is not its own");
+    assert!(o.ordered, "candidates not in strictly increasing distance");
+    assert!(q.num_waiting == o.waiting, "num_waiting out of sync with the peers in flight");
+    assert!(o.count >= pre.n, "a candidate disappeared");
     let mut i = 0;
     while i < N {
         if i < pre.n {
-            match state_of(q, pre.ids[i]) {
+            match o.st[i] {
                 None => assert!(false, "a candidate disappeared"),
                 Some(s) => {
                     if pre.st[i] != S::NotContacted {
                         assert!(s != S::NotContacted, "a peer that was already contacted is scheduled again");
                     }
-                    // final states are final
                     if pre.st[i] == S::Failed || pre.st[i] == S::Succeeded {
                         assert!(s == pre.st[i], "a final per-peer state changed");
                     }
@@ -212,13 +234,25 @@ fn check_invariant(q: &Q, pre: &Pre) {
         }
         i += 1;
     }
+    o
+}
+fn post_state(o: &Post, pre: &Pre, id: u8) -> Option<S> {
+    let mut r = None;
+    let mut i = 0;
+    while i < N {
+        if i < pre.n && pre.ids[i] == id {
+            r = o.st[i];
+        }
+        i += 1;
+    }
+    r
 }
 
 // ---------------------------------------------------------------------------------------------
 fn step_next(n: usize) {
     let (mut q, pre) = arbitrary_query(n);
     let r = q.next(instant(pre.now));
-    check_invariant(&q, &pre);
+    let o = check_invariant(&q, &pre);
     if pre.finished {
         assert!(r == QueryState::Finished, "a finished lookup came back to life");
         assert!(matches!(q.progress, QueryProgress::Finished));
@@ -233,7 +267,7 @@ fn step_next(n: usize) {
                 Some(i) => assert!(pre.st[i] == S::NotContacted, "request sent to a peer that was already contacted"),
                 None => assert!(false, "request sent to an unknown peer"),
             }
-            assert!(state_of(&q, p.0) == Some(S::Waiting));
+            assert!(post_state(&o, &pre, p.0) == Some(S::Waiting));
             // ... and the closest such peer
             let mut i = 0;
             while i < N {
@@ -255,17 +289,8 @@ fn step_next(n: usize) {
             kani::cover!(!pre.finished, "lookup finishes");
             assert!(matches!(q.progress, QueryProgress::Finished));
             // completeness: finishing with fewer than num_results answers means every known candidate was contacted
-            let mut succeeded = 0;
-            let mut not_contacted = 0;
-            for (_d, p) in q.closest_peers.iter() {
-                match code(&p.state) {
-                    S::Succeeded => succeeded += 1,
-                    S::NotContacted => not_contacted += 1,
-                    _ => {}
-                }
-            }
-            if !pre.finished && succeeded < pre.num_results {
-                assert!(not_contacted == 0, "lookup finished with too few results while a candidate was never contacted");
+            if !pre.finished && o.succeeded < pre.num_results {
+                assert!(o.not_contacted == 0, "lookup finished with too few results while a candidate was never contacted");
                 assert!(q.num_waiting == 0, "lookup finished with too few results while requests are in flight");
             }
         }
@@ -274,7 +299,7 @@ fn step_next(n: usize) {
     let mut i = 0;
     while i < N {
         if i < pre.n && pre.st[i] != S::Succeeded {
-            assert!(state_of(&q, pre.ids[i]) != Some(S::Succeeded), "a peer counts as having answered without an answer");
+            assert!(o.st[i] != Some(S::Succeeded), "a peer counts as having answered without an answer");
         }
         i += 1;
     }
@@ -297,14 +322,14 @@ fn step_on_success(n: usize) {
     }
     let progress_before_finished = pre.finished;
     q.on_success(&Id(who), returned);
-    check_invariant(&q, &pre);
+    let o = check_invariant(&q, &pre);
     let idx = pre.index_of(who);
     let accepted = !pre.finished && matches!(idx.map(|i| pre.st[i]), Some(S::Waiting) | Some(S::Unresponsive));
     // soundness of "answered": only the reporting peer, only if a request to it was outstanding
     let mut i = 0;
     while i < N {
         if i < pre.n && pre.st[i] != S::Succeeded {
-            let now_succeeded = state_of(&q, pre.ids[i]) == Some(S::Succeeded);
+            let now_succeeded = o.st[i] == Some(S::Succeeded);
             assert!(now_succeeded == (accepted && pre.ids[i] == who), "exactly the answering peer, if it was asked, becomes a responder");
         }
         i += 1;
@@ -312,22 +337,25 @@ fn step_on_success(n: usize) {
     if accepted {
         kani::cover!(idx.map(|i| pre.st[i]) == Some(S::Unresponsive), "late answer after the per-peer timeout");
         // every reported peer is a candidate afterwards (new ones as not-contacted)
-        if m >= 1 {
-            assert!(state_of(&q, r0).is_some(), "a reported candidate was dropped");
-            if pre.index_of(r0).is_none() {
-                assert!(state_of(&q, r0) == Some(S::NotContacted) || r0 == r1, "new candidate must start as not contacted");
-            }
+        let known0 = pre.index_of(r0).is_some();
+        let known1 = pre.index_of(r1).is_some();
+        let mut expect = pre.n;
+        if m >= 1 && !known0 {
+            expect += 1;
         }
-        if m >= 2 {
-            assert!(state_of(&q, r1).is_some(), "a reported candidate was dropped");
+        if m >= 2 && !known1 && r1 != r0 {
+            expect += 1;
         }
+        assert!(o.count == expect, "a reported candidate was dropped (or an unreported one appeared)");
+        let fresh = o.count - pre.n;
+        assert!(o.not_contacted >= fresh, "new candidate must start as not contacted");
     } else {
         // late / unsolicited / duplicate answers and answers to a finished lookup change nothing
-        assert!(q.closest_peers.len() == pre.n, "an answer that was not awaited changed the candidate set");
+        assert!(o.count == pre.n, "an answer that was not awaited changed the candidate set");
         let mut i = 0;
         while i < N {
             if i < pre.n {
-                assert!(state_of(&q, pre.ids[i]) == Some(pre.st[i]));
+                assert!(o.st[i] == Some(pre.st[i]));
             }
             i += 1;
         }
@@ -342,12 +370,12 @@ fn step_on_failure(n: usize) {
     let (mut q, pre) = arbitrary_query(n);
     let who: u8 = kani::any();
     q.on_failure(&Id(who));
-    check_invariant(&q, &pre);
-    assert!(q.closest_peers.len() == pre.n);
+    let o = check_invariant(&q, &pre);
+    assert!(o.count == pre.n);
     let mut i = 0;
     while i < N {
         if i < pre.n {
-            let s = state_of(&q, pre.ids[i]).unwrap();
+            let s = o.st[i].unwrap();
             if pre.ids[i] == who && !pre.finished && (pre.st[i] == S::Waiting || pre.st[i] == S::Unresponsive) {
                 assert!(s == S::Failed, "failure report for an outstanding request not recorded");
             } else {
@@ -406,6 +434,10 @@ macro_rules! harnesses {
     )*};
 }
 harnesses! {
+    c09_next_n2 => step_next(2);
+    c09_on_failure_n2 => step_on_failure(2);
+    c09_on_success_n1 => step_on_success(1);
+    c10_into_result_n2 => step_into_result(2);
     c09_next_n1 => step_next(1);
     c09_next_n3 => step_next(3);
     c09_next_n4 => step_next(4);
@@ -414,5 +446,6 @@ harnesses! {
     c09_on_failure_n3 => step_on_failure(3);
     c10_into_result_n3 => step_into_result(3);
     c10_into_result_n4 => step_into_result(4);
-    c09_twin_must_fail => { step_next(3); assert!(false, "twin"); };
+    c09_twin_must_fail => { step_next(1); assert!(false, "twin"); };
 }
+
